@@ -85,6 +85,14 @@ def check(spec, ctx):
     got_edges = {frozenset((index[u], index[v])) for u, v in molecule.edges}
     got_cross = {e for e in got_edges if len({resid_of[a] for a in e}) > 1}
     want_cross = {e for e in model.edges if len({resid_of[a] for a in e}) > 1}
+    # edges a link adds inside a residue (atoms the block does not bond) count as well; compared where R1 knows the
+    # edges of every block exactly (.ff inputs only)
+    if not any(f["kind"] == "itp" for f in spec["files"]):
+        got_inner = got_edges - got_cross
+        want_inner = {e for e in model.edges if len({resid_of[a] for a in e}) == 1}
+        if got_inner != want_inner:
+            raise Violation("links:edges_within_residues", f"missing={sorted(map(sorted, want_inner - got_inner))[:3]} "
+                                                            f"unexplained={sorted(map(sorted, got_inner - want_inner))[:3]}")
     if got_cross != want_cross:
         raise Violation("links:edges", f"missing={sorted(map(sorted, want_cross - got_cross))[:3]} "
                                        f"unexplained={sorted(map(sorted, got_cross - want_cross))[:3]}")
